@@ -5,6 +5,7 @@ mod parse;
 mod cli;
 mod env;
 mod dot;
+mod sets;
 mod watchdog;
 
 use std::io::Write;
@@ -43,6 +44,7 @@ fn main() {
         "C11" => cli::c11(&mut out, tier, &mut rng, &mut st),
         "C13" => env::c13(&mut out, tier, &mut rng, &mut st),
         "C14" => dot::c14(&mut out, tier, &mut rng, &mut st),
+        "C19" => sets::c19(&mut out, tier, &mut rng, &mut st),
         "C02" => bddprops::c02(&mut out, tier, &mut rng, &mut st),
         "C03" => bddprops::c03(&mut out, tier, &mut rng, &mut st),
         "C04" => bddprops::c04(&mut out, tier, &mut rng, &mut st),
